@@ -294,7 +294,7 @@ class SimCluster:
         if resp is None:          # acks=0: no reply is due, next request may proceed
             ep.done(tr)
             return
-        delay = self.latency(ep.node, name) + (fault.delay if fault and fault.kind == "delay" else 0.0)
+        delay = self.latency(ep.node, name) + (fault.delay if fault and fault.kind in ("delay", "error") else 0.0)
         if callable(resp):        # deferred: handler will call send later
             resp(lambda r: self.send_reply(tr, cls, corr, r, self.latency(ep.node, name), info))
             return
